@@ -15,7 +15,7 @@ from .. import gen, sx
 
 TRANSLATOR = os.path.join(ROOT, 'harness', 'translate', 'py2gallina_c15.py')
 GEN_FILE = 'UQGridGen.v'
-GEN_CHAIN = ['Base/PyNumUQ.v', 'Gen/UQGridGen.v', 'Proofs/GenUQGridEq.v', 'Props/C15gen.v', 'Entry/C15gen.v']
+GEN_CHAIN = ['Base/PyNumUQ.v', 'Proofs/GenUQGridLoop.v', 'Gen/UQGridGen.v', 'Proofs/GenUQGridEq.v', 'Props/C15gen.v', 'Entry/C15gen.v']
 EXTRA_PROPS = ('C15gen',)
 INF = 2 ** 1024
 ASSUMPTION = gen.ASSUMPTION + ('; C15 front end (py2gallina_c15.py): the distribution object enters the translated compute_weights through the two lists '
@@ -24,8 +24,8 @@ ASSUMPTION = gen.ASSUMPTION + ('; C15 front end (py2gallina_c15.py): the distrib
                                'lists of dimension d, rule D2), math.isinf read as 2^1024 <= |x| with +-inf read as +-2^1024 (coq/Base/PyNumUQ.v), '
                                'math.isclose as in the C08 front end, normalisations N1-N8 (continue, slice assignment, negative index, array / '
                                'scalar, print-only else branch, assert messages, if-chains assigning one name, list-literal returns); the equality '
-                               'generated = hand model is PROVED for the early exits and for compute_1D_quad_weights and COMPARED PER CASE for the '
-                               'moment loop / clipping / renormalisation (no theorem for all n)')
+                               'generated = hand model (Model/UQ.wtrap) is PROVED for all n (Props/C15gen.v: C15gen_compute_weights_eq, '
+                               '_modified_eq; precondition: neighbouring finite points differ) and additionally compared per case on every run')
 
 
 def regenerate(chk):
